@@ -202,7 +202,9 @@ func (r *run) register(name string, h hash.SHA256Hash) {
 	r.names[h] = name
 	r.refs[name] = h
 }
-func inModel(name string) bool { return name == "g" || (strings.HasPrefix(name, "p") && strings.Contains(name, ".")) }
+func inModel(name string) bool {
+	return name == "g" || (strings.HasPrefix(name, "p") && strings.Contains(name, "."))
+}
 
 // ---------------------------------------------------------------------------------------------
 // observation of the real code (called from the goroutines of the code under test)
@@ -1394,7 +1396,13 @@ func (w *world) runScript(in input, sc script) (res *result) {
 			}
 			expectOutcome(s, p, true)
 		case "ReadVerify":
-			_, err = stepActor(p, "read.begin", "go")
+			var now string
+			now, err = stepActor(p, "read.begin", "go")
+			if err == nil && now == "" {
+				// the goroutine is on its way into treeMutex.Lock (held by another one): let it park before anybody else is
+				// released, so that the mutex is handed over in the order of the model
+				time.Sleep(40 * time.Millisecond)
+			}
 			if s.str("res") != "verified" {
 				expectOutcome(s, p, true)
 			}
